@@ -10,7 +10,8 @@
    pre-fix functions are kept as *_pinned. *)
 From ReqV Require Export Lib.Bytes.
 From ReqV Require Export Model.AuthParam.
-From ReqV Require Export Gen.DigestTables.  (* hash_funcs, challenge_keys, authorize_fields: regenerated from digest.go *)
+From ReqV Require Export Gen.DigestTables.   (* hash_funcs, challenge_keys: regenerated from digest.go *)
+From ReqV Require Export Gen.DigestKernels.  (* sprintf_calls, string_tests: regenerated from digest.go *)
 
 (* ---------- hash functions ---------- *)
 
@@ -178,6 +179,69 @@ Definition hex8 (n : N) : bytes := hex_fixed 8 n.
 
 Definition lookup_field (k : bytes) (fs : list field) : option fval := assoc_bytes k fs.
 
+(* ---------- fmt.Sprintf, for the verbs digest.go uses, run on the format strings and argument
+   lists regenerated from the source (Gen/DigestKernels.v sprintf_calls) ---------- *)
+
+Inductive farg := FS (s : bytes) | FN (n : N).
+
+Definition fmt_bad : bytes := bs "%!(BAD)".
+
+Fixpoint sprintf (fmt : bytes) (args : list farg) : bytes :=
+  match fmt with
+  | [] => []
+  | b :: r =>
+      if beqb b "%"%byte then
+        match r with
+        | c :: r1 =>
+            if beqb c "s"%byte then
+              match args with
+              | FS s :: a => s ++ sprintf r1 a
+              | _ => fmt_bad
+              end
+            else if beqb c "0"%byte then
+              match r1 with
+              | d :: e :: r2 =>
+                  if beqb d "8"%byte && beqb e "x"%byte then
+                    match args with
+                    | FN n :: a => hex8 n ++ sprintf r2 a
+                    | _ => fmt_bad
+                    end
+                  else fmt_bad
+              | _ => fmt_bad
+              end
+            else fmt_bad
+        | [] => fmt_bad
+        end
+      else b :: sprintf r args
+  end.
+
+(* the value of an argument expression (as the source spells it) *)
+Definition env_arg (env : list (bytes * farg)) (name : bytes) : farg :=
+  match assoc_bytes name env with
+  | Some a => a
+  | None => FS (bs "%!(UNKNOWN " ++ name ++ bs ")")
+  end.
+
+(* the string the source's Sprintf call [name] produces under [env] *)
+Definition hash_input (name : bytes) (env : list (bytes * farg)) : bytes :=
+  match assoc_bytes name sprintf_calls with
+  | Some (f, names) => sprintf f (map (env_arg env) names)
+  | None => bs "%!(NOCALL)"
+  end.
+
+(* name and kind of the parameter an `sl = append(sl, fmt.Sprintf(...))` line of authorize()
+   writes: 0 = quoted and escaped, 1 = quoted verbatim, 2 = bare *)
+Definition call_field (c : bytes * list bytes) : option (bytes * N) :=
+  match cut_eq (fst c) with
+  | Some (k, r) =>
+      if bytes_eqb r (dquote :: bs "%s" ++ [dquote]) then
+        Some (k, if has_prefix (bs "escapeQuoted(") (hd [] (snd c)) then 0%N else 1%N)
+      else if bytes_eqb r (bs "%s") || bytes_eqb r (bs "%08x") then Some (k, 2%N)
+      else None
+  | None => None
+  end.
+Definition fval_kind (v : fval) : N := match v with Quoted _ => 0%N | QuotedRaw _ => 1%N | Bare _ => 2%N end.
+
 Definition sep3 (a b c : bytes) : bytes := a ++ colon_d :: b ++ colon_d :: c.
 Definition sep2 (a b : bytes) : bytes := a ++ colon_d :: b.
 
@@ -219,17 +283,21 @@ Section WithHash.
         | inl qop =>
             let sess := has_suffix (bs "-sess") alg in
             let nc := hex8 1 in                                      (* c.nc++ from 0 *)
-            let ha1_0 := h alg (sep3 user (c_realm c) pass) in
-            let ha1 := if sess then h alg (sep3 ha1_0 (c_nonce c) cnonce) else ha1_0 in
-            let ha2 := h alg (sep2 method uri) in
+            let env0 := [(bs "c.username", FS user); (bs "c.realm", FS (c_realm c)); (bs "c.password", FS pass);
+                         (bs "c.nonce", FS (c_nonce c)); (bs "c.cNonce", FS cnonce); (bs "c.nc", FN 1);
+                         (bs "c.messageQop", FS qop); (bs "c.method", FS method); (bs "c.digestURI", FS uri)] in
+            let ha1_0 := h alg (hash_input (bs "ha1#0") env0) in
+            let ha1 := if sess then h alg (hash_input (bs "ha1#1") ((bs "ret", FS ha1_0) :: env0)) else ha1_0 in
+            let ha2 := h alg (hash_input (bs "ha2#0") env0) in
+            let env1 := (bs "ha1", FS ha1) :: (bs "ha2", FS ha2) :: env0 in
             let response :=
               match qop with
-              | [] => h alg (sep3 ha1 (c_nonce c) ha2)
-              | _ => h alg (sep2 ha1 (c_nonce c ++ colon_d :: nc ++ colon_d :: cnonce ++
-                                       colon_d :: qop ++ colon_d :: ha2))
+              | [] => h alg (hash_input (bs "resp#1") env1)
+              | _ => h alg (hash_input (bs "kd#0")
+                              [(bs "secret", FS ha1); (bs "data", FS (hash_input (bs "resp#2") env1))])
               end in
             let uh := bytes_eqb (c_userhash c) (bs "true") in
-            let username := if uh then h alg (sep2 user (c_realm c)) else user in
+            let username := if uh then h alg (hash_input (bs "authorize#0") env0) else user in
             let algf := match alg with
                         | [] => if emit_empty_alg then Some [] else None
                         | _ => Some alg
